@@ -65,10 +65,8 @@ def run(tier):
     if p.returncode != 0 or not os.path.exists(out):
         raise vlib.Inconclusive("sigdrv failed: %s" % (p.stdout + p.stderr)[-3000:])
     res = json.load(open(out))
-    if res.get("harness_errors"):
-        raise vlib.Inconclusive("sigdrv: the oracle and the specification disagree on %d constructed inputs (harness bug, not a verdict): %s" % (
-            len(res["harness_errors"]), res["harness_errors"][:3]))
-    if res.get("uncovered"):
+    harness_errors = res.get("harness_errors")
+    if res.get("uncovered") and not (res.get("failures") or harness_errors):
         raise vlib.Inconclusive("sigdrv: %d decision paths got no concrete input: %s" % (len(res["uncovered"]), res["uncovered"][:5]))
     if res["cases"] != len(cases):
         raise vlib.Inconclusive("sigdrv read %d cases, TLC emitted %d" % (res["cases"], len(cases)))
@@ -85,6 +83,10 @@ def run(tier):
                       "%s: the standard prescribes %s, the library answers %s (%s)" % (site, f0["expected"], " / ".join(sorted(set(f["got"] for f in fs))), f0["what"]),
                       {"observed_counts": counts, "witnesses": fs[:3]})
 
+    # a disagreement the driver could not attribute counts as a harness problem only when the run shows nothing else
+    if harness_errors and not rep.unknown():
+        raise vlib.Inconclusive("sigdrv: the oracle and the specification disagree on %d constructed inputs (harness bug, not a verdict): %s" % (
+            len(harness_errors), harness_errors[:3]))
     rep.add_counts(evaluations=res["evaluations"] + res["kat_evaluations"])
     rep.cov.update({
         "distinct_nontrivial": res["cases_covered"],
